@@ -10,11 +10,13 @@ VARIANTS = ['asan']
 # inserted layout / comment forms: (text, needs newline after)
 FORMS = [('#x', True), ('//x', True), ('/*x*/', False), ('/* multi\n line */', False), ('#', True), ('//', True), ('/**/', False),
          ('#### hh', True), ('   ', False), ('\n\n', False), ('\t', False), ('/* "q" \'s\' ${v} { } = , */', False), ('# "unbalanced', True), ('/***/', False),
+         ('# ' + 'long comment ' * 4, True), ('/* ' + 'block comment text ' * 5 + '*/', False), ('//' + 'x' * 33, True),
          ('/* a * b */', False), ('/** doc */', False), ('/*** x ***/', False), ('/* 2*3 / 4 */', False), ('/* star*\n *next */', False)]
 ANN = [('# hello world', True, 'hello world'), ('// slashes', True, 'slashes'), ('/* c style */', False, 'c style'),
        ('/*  multi\n   line  */', False, 'multi\n   line'), ('####   hashes  ', True, 'hashes'), ('////deep', True, 'deep'), ('/*tight*/', False, 'tight'),
        ('#/etc/app conf', True, '/etc/app conf'), ('//#42 hash', True, '#42 hash'), ('# open /* only', True, 'open /* only'),
        ('/*\n  boxed\n*/', False, 'boxed'), ('/*\n * star line\n */', False, '* star line'), ('# cr\r', True, 'cr'), ('/*\ttabbed\t*/', False, 'tabbed'),
+       ('# ' + 'a long annotation ' * 3, True, ('a long annotation ' * 3).strip()), ('/* ' + 'w' * 33 + ' */', False, 'w' * 33),
        ('#', True, None), ('//', True, None), ('/**/', False, None), ('/* */', False, None), ('###', True, None)]
 RULE = ('grammar-derived accepted texts and token-mutated rejected texts x every token boundary (also inside lists, after =, between section name/title and {, '
         'inside call arguments) x %d inserted forms (#x //x /*x*/ multi-line, empty and marker-only comments, blanks, newlines), annotation support on and off: '
